@@ -18,8 +18,14 @@ META = dict(
     evaluations_counter="cases",
     min={"trees": 300, "module_forwards_judged": 1000, "structural_module_checks": 2000, "twin:QLinear": 200,
          "twin:QConv2d": 200, "twin:QLayerNorm": 50},
-    anchors=["quantize.py:quantize", "nn/qmodule.py:QModuleMixin.from_module", "nn/qmodule.py:QModuleMixin.forward",
-             "nn/qlinear.py:QLinear.qforward", "nn/qconv2d.py:QConv2d.qforward", "nn/qlayernorm.py:QLayerNorm.qforward"],
+    anchors=["quantize.py:quantize",
+             "nn/qmodule.py:QModuleMixin.from_module",
+             "nn/qmodule.py:QModuleMixin.forward",
+             "nn/qlinear.py:QLinear.qforward",
+             "nn/qconv2d.py:QConv2d.qforward",
+             "nn/qlayernorm.py:QLayerNorm.qforward",
+             "nn/qmodule.py:quantize_module",
+             "quantize.py:set_module_by_name"],
     rule="case = random module tree (depth <=4; Sequential/ModuleList/ModuleDict/custom containers; leaves Linear, Conv2d "
          "over stride/padding/dilation/groups/padding_mode/bias, LayerNorm over normalized_shape/affine/bias, and "
          "non-eligible layers) x random filter x weights qtype x activations {None,qint8,qfloat8} x dtype; structural "
